@@ -5,7 +5,7 @@ import json, os, shutil, sys
 HERE = os.path.dirname(os.path.dirname(os.path.abspath(__file__)))
 pid = sys.argv[1]
 round_tag = sys.argv[2] if len(sys.argv) > 2 else "r1"
-wt = f"/tmp/wt_{pid}"
+wt = f"/tmp/{sys.argv[3] if len(sys.argv) > 3 else 'wt'}_{pid}"
 notes = open(os.path.join(wt, "seeded_notes.md")).read() if os.path.exists(os.path.join(wt, "seeded_notes.md")) else ""
 for letter in "AB":
     diff = os.path.join(wt, f"seeded_{letter}.diff")
